@@ -430,6 +430,18 @@ def discharge_one(job):
         r, model, dt = 'error:%s' % e, None, 0.0
     res['tried'].append(('z3-%s' % z3.get_version_string(), r if r != 'unknown' else 'unknown(%s)' % _last_reason[0][:60], round(dt, 3)))
     res['time_s'] += dt
+    if r == 'unsat' and dt > 0.05 and not job.get('expect_sat'):
+        # z3 5.1 has answered `unsat` on satisfiable sequence formulas (rarely, and not reproducibly on the same input);
+        # the wrong answers seen came after 0.2-0.3 s.  An `unsat` that took longer than 50 ms is therefore asked for a
+        # second time with another random seed; if the second run does not agree the query goes on to cvc5.
+        try:
+            r2, model2, dt2 = _run_z3py(smt2, timeout_ms, 1 + job.get('z3_seed', 0))
+        except Exception as e:
+            r2, model2, dt2 = 'error:%s' % e, None, 0.0
+        res['tried'].append(('z3-%s/again' % z3.get_version_string(), r2, round(dt2, 3)))
+        res['time_s'] += dt2
+        if r2 != 'unsat':
+            r, model = 'unknown', None
     nolam = None
     if r not in ('sat', 'unsat') and 'lambda' in smt2:
         try:
